@@ -90,7 +90,7 @@ def judgeEnc (prop : String) (s : SpecSt) (dst : B) (e : Enc) (buf : Bytes) (o :
       | none => .na
     | .panic _ =>
       match messageLen respEid e with
-      | some m => if 250 < m then .fail "oversize-not-refused" else .na
+      | some m => if 250 < m && argsOk e then .fail "oversize-not-refused" else .na
       | none => .na
   | "C05" =>
     match o with
@@ -99,7 +99,8 @@ def judgeEnc (prop : String) (s : SpecSt) (dst : B) (e : Enc) (buf : Bytes) (o :
   | "C06" =>
     match o, reqBody e with
     | .ok (b, n), some body =>
-      if sub (b.take n) 9 (n - 1) == body then .ok
+      if !argsOk e then .na
+      else if sub (b.take n) 9 (n - 1) == body then .ok
       else match e with
         | .reqQueryHop a t => if sub (b.take n) 9 (n - 1) == [0x80#8, 0x0E#8, a, t] then .known "D5" else .fail "body"
         | _ => .fail "body"
@@ -153,7 +154,7 @@ def judgeEnc (prop : String) (s : SpecSt) (dst : B) (e : Enc) (buf : Bytes) (o :
       else if documentedInvalid e then .fail "documented-invalid-panics"
       else match fits, messageLen respEid e with
         | some true, some m => if argsOk e && decide (m + 9 ≤ buf.length) then .fail "panic" else .na
-        | some false, _ => .fail "oversize-panics"
+        | some false, _ => if argsOk e then .fail "oversize-panics" else .na
         | _, _ => .na
   | _ => .na
 
@@ -163,7 +164,8 @@ def judgeRt (s : SpecSt) (e : Enc) (pkt : Bytes) (o : DecObs) (outside : Bool) :
   let n := pkt.length
   match respCc e with
   | some cc =>
-    if cc ≠ 0x00#8 then
+    if 5 < cc.toNat then .na            -- not expressible through the API's CompletionCode enum
+    else if cc ≠ 0x00#8 then
       match o with
       | .err (.control, .ctl (.cc c)) => chk (c.toByte == cc) "wrong-completion-code"
       | _ => .fail "error-response-not-reported"
